@@ -15,8 +15,8 @@ theorem get_some_m {s : IS} {x : Byte} (h : (s.get).2 = some x) : (s.get).1.m + 
   cases eof <;> cases fail <;> cases rest <;> simp_all [IS.get, IS.good, IS.m]
 
 /-- the inner loop `while( in.good() && c != ')' … ) { in.get( c ); tmp += c; … }`, with or without the end-of-record test -/
-theorem recoverInner_pot (R : Nat) (stay : Bool) : ∀ (fuel : Nat) (s : IS) (c : Byte) (q : Bool) (len steps : Nat), s.m + 1 ≤ fuel →
-    ∃ s' c' q' f' len' steps', recoverInner stay fuel s c q len steps = .ok (s', c', q', f', len', steps') ∧ s'.m ≤ s.m ∧
+theorem recoverInner_pot (R : Nat) (stay quotes : Bool) : ∀ (fuel : Nat) (s : IS) (c : Byte) (q : Bool) (len steps : Nat), s.m + 1 ≤ fuel →
+    ∃ s' c' q' f' len' steps', recoverInner stay quotes fuel s c q len steps = .ok (s', c', q', f', len', steps') ∧ s'.m ≤ s.m ∧
       (f' = false → steps' + pot R s' ≤ steps + pot R s ∧ (s'.good = true → c' = chRParen) ∧
         ((s.good = true ∨ s.m = 0) → (s'.good = true ∨ s'.m = 0))) ∧
       (f' = true → steps' + pot R s' ≤ steps + pot R s + 1) := by
@@ -38,7 +38,7 @@ theorem recoverInner_pot (R : Nat) (stay : Bool) : ∀ (fuel : Nat) (s : IS) (c 
         · have := pot_drop (R := R) hh (Nat.le_refl 1); omega
         · rw [pot_zero hh]; omega
       have hrec : ∀ (c1 : Byte) (q1 : Bool),
-          ∃ s' c' q' f' len' steps', recoverInner stay fuel (s.get).1 c1 q1 (len + 1) (steps + 1) = .ok (s', c', q', f', len', steps') ∧
+          ∃ s' c' q' f' len' steps', recoverInner stay quotes fuel (s.get).1 c1 q1 (len + 1) (steps + 1) = .ok (s', c', q', f', len', steps') ∧
             s'.m ≤ s.m ∧
             (f' = false → steps' + pot R s' ≤ steps + pot R s ∧ (s'.good = true → c' = chRParen) ∧
               ((s.good = true ∨ s.m = 0) → (s'.good = true ∨ s'.m = 0))) ∧
@@ -79,9 +79,9 @@ theorem recoverInner_pot (R : Nat) (stay : Bool) : ∀ (fuel : Nat) (s : IS) (c 
       · intro hf; cases hf
 
 /-- the whole `);` scan, for either shape: all iterations of both loops are paid by the potential, plus one -/
-theorem recoverOuter_pot (R : Nat) (stay pb : Bool) : ∀ (fuel : Nat) (s : IS) (c : Byte) (q : Bool) (len steps : Nat), s.m + 1 ≤ fuel →
+theorem recoverOuter_pot (R : Nat) (stay quotes pb : Bool) : ∀ (fuel : Nat) (s : IS) (c : Byte) (q : Bool) (len steps : Nat), s.m + 1 ≤ fuel →
     (s.good = true ∨ s.m = 0) →
-    ∃ r, recoverOuter stay pb fuel s c q len steps = .ok r ∧ r.s.m ≤ s.m ∧ r.steps + pot R r.s ≤ steps + pot R s + 1 := by
+    ∃ r, recoverOuter stay quotes pb fuel s c q len steps = .ok r ∧ r.s.m ≤ s.m ∧ r.steps + pot R r.s ≤ steps + pot R s + 1 := by
   intro fuel
   induction fuel with
   | zero => intro s c q len steps h; omega
@@ -92,7 +92,7 @@ theorem recoverOuter_pot (R : Nat) (stay pb : Bool) : ∀ (fuel : Nat) (s : IS) 
     · simp only [hg, Bool.not_true, Bool.false_eq_true, if_false]
       have hpos := good_m_pos hg
       have hge := pot_ge (R := R) hpos
-      obtain ⟨s1, c1, q1, f1, len1, steps1, he, h1, hnf, hf⟩ := recoverInner_pot R stay (fuel + 1) s c q len steps h
+      obtain ⟨s1, c1, q1, f1, len1, steps1, he, h1, hnf, hf⟩ := recoverInner_pot R stay quotes (fuel + 1) s c q len steps h
       rw [he]
       simp only []
       cases f1 with
@@ -148,7 +148,7 @@ theorem recoverOuter_pot (R : Nat) (stay pb : Bool) : ∀ (fuel : Nat) (s : IS) 
               simp only [if_true]
               omega
           · obtain ⟨r, a, b, cc⟩ := ih (s1.ws.get).1 ((s1.ws.get).2.getD c1)
-              (if stay && (s1.ws.get).1.good && (s1.ws.get).2.getD c1 = chQuote then !q1 else q1) (len1 + 1) (steps1 + 1) hm3 hshape
+              (if stay && quotes && (s1.ws.get).1.good && (s1.ws.get).2.getD c1 = chQuote then !q1 else q1) (len1 + 1) (steps1 + 1) hm3 hshape
             exact ⟨r, a, by rcases hgm with hh | hh <;> omega, by omega⟩
         · rename_i hc
           have hng : s1.good = false := by
@@ -253,10 +253,11 @@ theorem exportLoop_pot (R : Nat) (cm : Bool) (iters : Nat) (hR : iters ≤ R) : 
 
 /-! ### the `);` scan and the end of the record -/
 
-/-- with the end-of-record test: a record tail `a ;` without `'`, `)` costs `|a| + 1` steps, whatever follows -/
+/-- with the end-of-record test at the first `;`: a record tail `a ;` without `)` costs `|a| + 1` steps, whatever follows
+and whatever apostrophes `a` holds -/
 theorem recoverInner_stays (a : List Byte) : ∀ (pre b : List Byte) (sk : Bool) (c : Byte) (len steps fuel : Nat),
-    (∀ x ∈ a, x ≠ chQuote ∧ x ≠ chRParen ∧ x ≠ chSemi) → c ≠ chRParen → a.length + 1 ≤ fuel →
-    recoverInner true fuel ⟨pre, a ++ chSemi :: b, false, false, sk⟩ c false len steps =
+    (∀ x ∈ a, x ≠ chRParen ∧ x ≠ chSemi) → c ≠ chRParen → a.length + 1 ≤ fuel →
+    recoverInner true false fuel ⟨pre, a ++ chSemi :: b, false, false, sk⟩ c false len steps =
       .ok (⟨a.reverse ++ pre, chSemi :: b, false, false, sk⟩, chSemi, false, true, len + a.length + 1, steps + a.length + 1) := by
   induction a with
   | nil =>
@@ -269,18 +270,18 @@ theorem recoverInner_stays (a : List Byte) : ∀ (pre b : List Byte) (sk : Bool)
     intro pre b sk c len steps fuel ha hc hf
     obtain ⟨f, rfl⟩ : ∃ f, fuel = f + 1 := ⟨fuel - 1, by simp at hf; omega⟩
     have hx := ha x (by simp)
-    have hih := ih (x :: pre) b sk x (len + 1) (steps + 1) f (fun y hy => ha y (by simp [hy])) hx.2.1 (by simp at hf; omega)
+    have hih := ih (x :: pre) b sk x (len + 1) (steps + 1) f (fun y hy => ha y (by simp [hy])) hx.1 (by simp at hf; omega)
     have hget : IS.get ⟨pre, x :: (a ++ chSemi :: b), false, false, sk⟩ = (⟨x :: pre, a ++ chSemi :: b, false, false, sk⟩, some x) := by
       simp [IS.get, IS.good]
     unfold recoverInner
     simp only [List.cons_append, hget]
-    simp [IS.good, hc, hx.1, hx.2.2, hih]
+    simp [IS.good, hc, hx.2, hih]
     omega
 
 /-- without it: when no `)` follows, the inner loop reads to the end of the input -/
 theorem recoverInner_runs_on (rest : List Byte) : ∀ (pre : List Byte) (sk : Bool) (c : Byte) (q : Bool) (len steps fuel : Nat),
     (∀ x ∈ rest, x ≠ chRParen) → c ≠ chRParen → rest.length + 2 ≤ fuel →
-    ∃ c', recoverInner false fuel ⟨pre, rest, false, false, sk⟩ c q len steps =
+    ∃ c', recoverInner false false fuel ⟨pre, rest, false, false, sk⟩ c q len steps =
       .ok (⟨rest.reverse ++ pre, [], true, true, sk⟩, c', q, false, len + rest.length + 1, steps + rest.length + 1) := by
   induction rest with
   | nil =>
